@@ -47,6 +47,8 @@ def run(rep, repo, tier):
                     ('R-PATH:null-result', 1), ('R-CREADER:bounds', 10), ('R-CREADER:post', 9), ('R-SPLIT:bounds', 10),
                     ('R-SPLIT:token-in-buffer', 3), ('R-TRIM:bounds', 2), ('R-JOIN', 3)):
         rep.floor(rule, n)
+    import c19_content
+    c19_content.run_ext(rep, repo, tier)
 
 
 def run_memmem(rep, repo):
@@ -262,6 +264,32 @@ def dispatch_rule(rep, mod, fname, rule='R-DISPATCH'):
     rep.inst(rule, fname, 'handler-is-func-of-a-table-entry', foff == off_func, H.where(),
              None if foff == off_func else 'handler pointer is loaded from offset %d of the entry, func is at %d'
              % (foff, off_func))
+    # per-table argument dropping (rshell_tables_execute): the number of dropped arguments is the dropargs field of the
+    # table descriptor whose command table is being walked - read through the same descriptor cursor that provided `it`
+    init = [v for (bb, v) in it.incoming if not any(f.bmap[bb] in L['blocks'] for L in f.loops if it.block is L['header'])]
+    tl = field_load(init[0]) if len(init) == 1 else None
+    if tl is not None:
+        tit, toff = tl
+        tname = tyname(tit.ty.get('s', '')) if tit.ty.get('k') == 'ptr' else ''
+        off_tab, off_drop = mod.field_off(tname, 'table'), mod.field_off(tname, 'dropargs')
+        if off_tab is not None and off_drop is not None and toff == off_tab and H.ops:
+            a0 = f.inst_of(H.ops[0])
+            d = None
+            if a0 is not None and a0.op == 'sub':
+                x = a0.ops[1]
+                xi = f.inst_of(x)
+                while xi is not None and xi.op in ('sext', 'zext', 'trunc'):
+                    x = xi.ops[0]
+                    xi = f.inst_of(x)
+                d = x
+            if d is None:
+                raise AnalysisBroken('%s: the argument count handed to the handler is not argc - d' % fname)
+            dl = field_load(d)
+            ok = dl is not None and dl[0] is tit and dl[1] == off_drop
+            rep.inst(rule, fname, 'drops-the-arguments-of-the-table-being-walked', ok, H.where(),
+                     None if ok else 'the number of dropped arguments is not read from the dropargs field of the table descriptor '
+                     'whose commands are being compared (e.g. read once from the first descriptor): a command of a later table is '
+                     'called with the wrong argument window')
     # the guarding comparison
     guard = None
     for S in f.calls('strcmp'):
